@@ -490,10 +490,11 @@ class DocumentMapper:
 
         return "".join(parts)
 
-    def find_match_index(self, target_text: str) -> Tuple[int, int]:
+    def find_match_index(self, target_text: str, exact_only: bool = False) -> Tuple[int, int]:
         """
         Returns (start_index, match_length).
         Returns (-1, 0) if not found.
+        With exact_only=True only the literal stages (exact, smart quotes) are tried.
         """
         # 1. Exact Match
         start_idx = self.full_text.find(target_text)
@@ -506,6 +507,9 @@ class DocumentMapper:
         start_idx = norm_full.find(norm_target)
         if start_idx != -1:
             return start_idx, len(target_text)
+
+        if exact_only:
+            return -1, 0
 
         # 3. Strip markdown from target and try matching (ADDED)
         stripped_target = self._strip_markdown_formatting(target_text)
